@@ -117,13 +117,14 @@ for pid in sorted(props):
             else ("caught, no failing input found" if "VIOLATION" in res else "NOT caught")
         out.append(f"*Seeded mutation* (`seeded/{pid}/`): {meta.get('summary', '?')} — **{verdict}**."
                    + (f" {note}" if note else "") + "\n")
-    s2 = seeded(pid, "2")
-    if s2:
-        meta, res, note = s2
-        verdict = "caught with a failing input" if "VIOLATION" in res and "no-failing-input-found" not in res.split("VIOLATION")[1].split("\n")[0] \
-            else ("caught, no failing input found" if "VIOLATION" in res else "NOT caught")
-        out.append(f"*Second seeded mutation* (`seeded2/{pid}/`, run against a scratch worktree): {meta.get('summary', '?')} — **{verdict}**."
-                   + (f" {note}" if note else "") + "\n")
+    for wave, word in (("2", "Second"), ("3", "Third")):
+        s2 = seeded(pid, wave)
+        if s2:
+            meta, res, note = s2
+            verdict = "caught with a failing input" if "VIOLATION" in res and "no-failing-input-found" not in res.split("VIOLATION")[1].split("\n")[0] \
+                else ("caught, no failing input found" if "VIOLATION" in res else "NOT caught")
+            out.append(f"*{word} seeded mutation* (`seeded{wave}/{pid}/`, run against a scratch worktree): {meta.get('summary', '?')} — **{verdict}**."
+                       + (f" {note}" if note else "") + "\n")
 
 # section 4: findings
 out.append("## 4. Defects found in bminer/simpleiot\n")
@@ -143,7 +144,7 @@ for k in sorted(known, key=lambda k: (k["property"], k["status"])):
 out.append("")
 # section 6 table: seeded mutations
 rows = []
-for wave in ("", "2"):
+for wave in ("", "2", "3"):
   for pid in sorted(props):
     s6 = seeded(pid, wave)
     if not s6:
@@ -151,7 +152,7 @@ for wave in ("", "2"):
     meta, res, note = s6
     first = [l for l in res.splitlines() if l.startswith("VIOLATION")]
     verdict = "failing input + replay" if first and "no-failing-input-found" not in first[0] else ("obligation broken, no failing input" if first else "missed")
-    rows.append(f"| {pid}{' (2nd)' if wave else ''} | {meta.get('summary', '?')[:300].replace('|', '/')} | {verdict} |")
+    rows.append(f"| {pid}{' (wave ' + wave + ')' if wave else ''} | {meta.get('summary', '?')[:300].replace('|', '/')} | {verdict} |")
 SEEDED_TABLE = "\n".join(["| property | seeded change (by a sub-agent that saw only the property text) | result of `./check` |", "|---|---|---|"] + rows)
 out.append(open(os.path.join(ROOT, "design", "tail.md")).read().replace("@@SEEDED_TABLE@@", SEEDED_TABLE))
 out.append(open(os.path.join(ROOT, "design", "appendix.md")).read())
